@@ -404,6 +404,10 @@ class Lift:
                 return SV('dictmap', None, src=d, n=LEN(SEQ(d)), at=value_at)
         return NotImplemented
 
+    def dictcomp(self, ex, st, e):
+        """the executor hands dict comprehensions to theories through this hook"""
+        return self.expr(ex, st, e)
+
     def attr(self, ex, st, e, recv, name):
         if recv.kind == 'obj' and name == 'types':
             return SV('typeset')
